@@ -18,6 +18,27 @@ theorem C14_table_sound : tableOk Gen.saveAction = true := by decide
 /-- `insertInto` has the byName re-ordering branch and executes its statement. -/
 theorem C14_flags_sound : genFlags.reorders = true ∧ genFlags.executes = true := by decide
 
+/-- **Builder chains.** For every chain of `.byName` / `.mode(m)` calls, in any order (induction
+    over the chain): the writer asks for a by-name insert iff `.byName` occurs somewhere, and carries
+    the mode of the last `.mode` call. -/
+theorem C14_chain (calls : List Call) : writerState calls = specChain calls := by
+  have hk : Gen.modeKeepsByName = true ∧ Gen.byNameKeepsMode = true := by decide
+  have gen : ∀ (cs : List Call) (w : WState),
+      cs.foldl (fun w c => applyCallP true true c w) w =
+        { byName := w.byName || cs.any (fun c => c = .byName),
+          mode := cs.foldl lastModeStep w.mode } := by
+    intro cs
+    induction cs with
+    | nil => intro w; simp
+    | cons c rest ih =>
+      intro w
+      simp only [List.foldl_cons, List.any_cons]
+      rw [ih]
+      cases c <;> simp [applyCallP, lastModeStep]
+  simp only [writerState, writerStateP, hk.1, hk.2, specChain]
+  rw [gen]
+  simp
+
 /-- **Save modes.** For every mode of {None, error, errorifexists, ignore, overwrite, append} —
     given through `saveAsTable(mode=…)` or `.mode(…)` — every catalog state, target name and frame
     (including a frame whose SELECT fails), under the named hypotheses, the statement sqlframe issues
@@ -270,6 +291,7 @@ example : (run C14.exOps C14.st0).cat =
 example : ((Op.save "t1" (some "overwrite") none C14.fr2).WF ∧
     InScope Gen.saveAction genFlags (.save "t1" (some "overwrite") none C14.fr2) C14.st1) := by decide
 example : C14.fr3.cols.Perm ["x", "y"] := by decide
+example : writerState [.byName, .mode (some "append")] = { byName := true, mode := some "append" } := by decide
 example : H_pathModeFromState Gen.pathMode (some "ignore") (some "overwrite") ∧ D_fileAppend .ignore := by decide
 
 /-! ### the full statement, for the record
